@@ -44,6 +44,9 @@ PROJECTS = {
     "three-deep": ('include "f.qasm" ; int z = a ;', {"f.qasm": 'include "g.qasm" ; int y = a ;', "g.qasm": 'include "h.qasm" ; int x = a ;', "h.qasm": "int a = 1 ;"}),
     "siblings-nested": ('include "f.qasm" ; include "g.qasm" ; int z = a + b ;', {"f.qasm": 'include "h.qasm" ; int a = c ;', "g.qasm": "int b = c ;", "h.qasm": "int c = 1 ;"}),
     "empty-file": ('int a ; include "f.qasm" ; int b ;', {"f.qasm": ""}),
+    "std-shadowed-by-a-file": ('include "stdgates.inc" ; include "f.qasm" ; qubit q ; h q ; int c = b ;', {"stdgates.inc": "int zz = 1 ;", "f.qasm": "int b = 1 ;"}),
+    "std-name-in-a-directory": ('include "lib/stdgates.inc" ; int a = zz ; include "stdgates.inc" ; qubit q ; h q ;', {"lib/stdgates.inc": "int zz = 1 ;"}),
+    "std-name-dot-slash": ('include "./stdgates.inc" ; int a ;', {"./stdgates.inc": "int zz = 1 ;"}),
     "not-global": ('int a ; if ( true ) { include "stdgates.inc" ; }', {}),
     "not-global-while": ('int a ; while ( true ) { include "stdgates.inc" ; a = 1 ; }', {}),
 }
@@ -78,6 +81,46 @@ def install(models, state):
     def _is_abs(ex, c, a):
         return False
 
+    @R(r"^Path::new::<.*>$")
+    def _path_new(ex, c, a):
+        return to_path(a[0])
+
+    @R(r"^Path::file_name$|^Path::extension$|^Path::file_stem$|^Path::parent$")
+    def _file_name(ex, c, a):
+        p = to_path(a[0]).key[-1]
+        base = p.rstrip("/").split("/")[-1]
+        if c.endswith("parent"):
+            d = "/".join(p.rstrip("/").split("/")[:-1])
+            return EnumV("Option", 1, [PathV((d,))]) if "/" in p else EnumV("Option", 1, [PathV(("",))])
+        if base in ("", "..", "."):
+            return EnumV("Option", 0, [])
+        if c.endswith("file_name"):
+            return EnumV("Option", 1, [base])
+        stem, dot, ext = base.rpartition(".")
+        if c.endswith("extension"):
+            return EnumV("Option", 1, [ext]) if dot and stem else EnumV("Option", 0, [])
+        return EnumV("Option", 1, [stem if dot and stem else base])
+
+    @R(r"^<(str|String|std::string::String|&str) as AsRef<OsStr>>::as_ref$|^OsStr::new::<.*>$|^OsStr::to_str$|^OsStr::to_string_lossy$")
+    def _osstr(ex, c, a):
+        v = deref(a[0])
+        if hasattr(v, "chars"):
+            cs = v.chars()
+            v = "".join(map(chr, cs)) if all(isinstance(x, int) for x in cs) else v
+        return EnumV("Option", 1, [v]) if c.endswith("to_str") else v
+
+    @R(r"^<Option<&OsStr> as PartialEq>::(eq|ne)$|^<&?OsStr as PartialEq(<.*>)?>::(eq|ne)$")
+    def _os_eq(ex, c, a):
+        x, y = deref(a[0]), deref(a[1])
+        def val(o):
+            if isinstance(o, EnumV):
+                return ("some", val(deref(o.fields[0]))) if o.idx == 1 else ("none",)
+            if isinstance(o, PathV):
+                return o.key[-1]
+            return o
+        r = val(x) == val(y)
+        return r if c.endswith("eq") else not r
+
     @R(r"^get_file_search_paths_from_env$")
     def _env(ex, c, a):
         return EnumV("Option", 0, [])
@@ -87,6 +130,8 @@ def install(models, state):
         p = to_path(a[0])
         name = p.key[-1]
         state["reads"].append(name)
+        if name == "stdgates.inc":
+            raise Violation("stdgates.inc is read from the file system (the standard library is provided without any file)")
         if name not in state["files"]:
             raise Violation(f"a file that no include names is read: {name}")
         readable = SB(z3.Bool("readable_" + re.sub(r"\W", "_", name)))
@@ -188,6 +233,8 @@ class H(semh.Base):
         # which files were readable on this path
         model_readable = {}
         for f in files:
+            if f == "stdgates.inc":
+                continue
             b = z3.Bool("readable_" + re.sub(r"\W", "_", f))
             if ex.check_sat(b) is None:
                 model_readable[f] = False
@@ -215,7 +262,7 @@ class H(semh.Base):
         ws = text.split()
         i = 0
         while i < len(ws):
-            if ws[i] == "include" and i + 2 < len(ws) and ws[i + 1].strip('"') in files:
+            if ws[i] == "include" and i + 2 < len(ws) and ws[i + 1].strip('"') in files and ws[i + 1].strip('"') != "stdgates.inc":
                 f = ws[i + 1].strip('"')
                 if readable.get(f):
                     if f in stack:
